@@ -269,6 +269,10 @@ func (db *TempPool) OperationHashes(
 ) ([][2]util.Hash, error) {
 	e := util.StringError("find new operations")
 
+	if limit < 1 {
+		return nil, nil
+	}
+
 	pst, err := db.st()
 	if err != nil {
 		return nil, e.Wrap(err)
@@ -279,14 +283,12 @@ func (db *TempPool) OperationHashes(
 		nfilter = func(isaac.PoolOperationRecordMeta) (bool, error) { return true, nil }
 	}
 
-	ops := make([][2]util.Hash, limit)
-	removeordereds := make([][]byte, limit)
-	removeops := make([]util.Hash, limit)
+	ops := make([][2]util.Hash, 0, min(limit, 1<<10)) //nolint:mnd //...
 
-	var opsindex uint64
-	var removeorderedsindex, removeopsindex uint64
+	var removeordereds [][]byte
+	var removeops []util.Hash
 
-	facts := map[string]uint64{}
+	facts := map[string]int{}
 	defer func() {
 		clear(facts)
 		facts = nil
@@ -297,8 +299,7 @@ func (db *TempPool) OperationHashes(
 		func(k []byte, b []byte) (bool, error) {
 			meta, err := ReadFrameHeaderOperation(b)
 			if err != nil {
-				removeordereds[removeorderedsindex] = k
-				removeorderedsindex++
+				removeordereds = append(removeordereds, k)
 
 				return true, nil
 			}
@@ -307,50 +308,46 @@ func (db *TempPool) OperationHashes(
 			case err != nil:
 				return false, err
 			case !ok:
-				removeops[removeopsindex] = meta.Operation()
-				removeopsindex++
+				removeops = append(removeops, meta.Operation())
 
 				return true, nil
 			}
 
-			// NOTE filter duplicated fact; last one will be selected
-			if prev, found := facts[meta.Fact().String()]; found {
-				removeops[removeopsindex] = meta.Operation()
-				removeopsindex++
+			factkey := meta.Fact().String()
 
-				nops := make([][2]util.Hash, len(ops))
-				copy(nops, ops[:prev])
-				copy(nops[prev:], ops[prev+1:])
+			// NOTE filter duplicated fact; last one will be selected and the
+			// previous one will be removed.
+			if prev, found := facts[factkey]; found {
+				removeops = append(removeops, ops[prev][0])
 
-				ops = nops
+				ops = append(ops[:prev], ops[prev+1:]...)
 
-				opsindex--
+				for i := range facts {
+					if facts[i] > prev {
+						facts[i]--
+					}
+				}
 			}
 
-			ops[opsindex] = [2]util.Hash{meta.Operation(), meta.Fact()}
-			facts[meta.Fact().String()] = opsindex
-			opsindex++
+			facts[factkey] = len(ops)
+			ops = append(ops, [2]util.Hash{meta.Operation(), meta.Fact()})
 
-			if opsindex == limit {
-				return false, nil
-			}
-
-			return true, nil
+			return uint64(len(ops)) < limit, nil
 		},
 		true,
 	); err != nil {
 		return nil, e.Wrap(err)
 	}
 
-	if err := db.removeNewOperationOrdereds(removeordereds[:removeorderedsindex]); err != nil {
+	if err := db.removeNewOperationOrdereds(removeordereds); err != nil {
 		return nil, e.Wrap(err)
 	}
 
-	if err := db.setRemoveNewOperations(ctx, height, removeops[:removeopsindex]); err != nil {
+	if err := db.setRemoveNewOperations(ctx, height, removeops); err != nil {
 		return nil, e.Wrap(err)
 	}
 
-	return ops[:opsindex], nil
+	return ops, nil
 }
 
 func (db *TempPool) TraverseOperationsBytes(
